@@ -1,6 +1,6 @@
 PART = {
   "C19": dict(
-    imports=["Carquet.Properties.C19.Alloc"],
+    imports=["Carquet.Properties.C19.Alloc", "Carquet.Properties.C19.AllocExt"],
     obligations=[
       "Carquet.Properties.C19.C19_buffer_inv",
       "Carquet.Properties.C19.C19_buffer_failed_append_unchanged",
@@ -22,13 +22,32 @@ PART = {
       "Carquet.Properties.C19.C19_regression_F20e",
       "Carquet.Properties.C19.C19_regression_F20f",
       "Carquet.Properties.C19.C19_regression_F20g",
+      # second wave (Properties/C19/AllocExt.lean)
+      "Carquet.Properties.C19.C19_arena_alloc_sequence_disjoint",
+      "Carquet.Properties.C19.C19_metadata_builders_propagate",
+      "Carquet.Properties.C19.C19_statistics_build_ok_is_complete",
+      "Carquet.Properties.C19.C19_index_serialize_ok_is_complete",
+      "Carquet.Properties.C19.C19_column_index_builder_safe",
+      "Carquet.Properties.C19.C19_offset_index_builder_safe",
+      "Carquet.Properties.C19.C19_page_load_propagates",
+      "Carquet.Properties.C19.C19_column_read_counts_are_true",
+      "Carquet.Properties.C19.C19_column_read_full_unless_refused",
+      "Carquet.Properties.C19.C19_regression_F20h",
+      "Carquet.Properties.C19.C19_regression_F20i",
+      "Carquet.Properties.C19.C19_regression_F20j",
     ],
     components=["alloc"],
     fidelity={"Impl.Buffer": "exact", "Impl.Arena": "exact (power-of-two alignments; memory contents not modelled)",
               "Impl.AllocFlow (schema builder, Thrift latch, page builder)": "structural, tied by component-level ops "
               "(statuses, sizes and number of allocation requests compared under the same oracle)",
-              "Impl.AllocFlow (column/row-group/file writer, open, get_column, page load, batch reader)": "structural, "
-              "tied only through the set of allocation sites named by the harness and the scenario predicate"},
+              "Impl.AllocFlow (column/row-group/file writer, open, get_column)": "structural; tied by exact per-call request "
+              "counts and call statuses under every single failure where the counts are predictable (malloc-level injection, "
+              "short column names, pages below 4096 bytes, codec other than zstd), otherwise by site names and the scenario predicate",
+              "Impl.AllocExt (page-by-page column reader: dictionary pages, several pages per chunk, partial progress, skip; "
+              "batch reader over it)": "structural with exact request counts: tied call by call (status, requests made, rows "
+              "returned) under every single failure in fread, mmap and buffer mode",
+              "Impl.AllocExt (Bloom filter, statistics builder, column/offset index builders with heap bookkeeping, index "
+              "serialisers)": "structural with exact request counts, tied call by call"},
     rule="alloc: (1) component level - random op sequences on carquet_buffer_* / carquet_arena_* / schema builder / "
          "thrift_write_* / page builder with 0-3 failing allocation requests (plus every single failing request of fixed "
          "sequences), boundary-directed sizes around 4096 / 64K / capacity doubling; the observable state (statuses, size, "
@@ -40,7 +59,21 @@ PART = {
          "arena-request level; each case runs in a forked child (a crash ends one case only), LeakSanitizer is "
          "consulted per case, write results are re-read without faults and compared with the intended table (values, "
          "levels, names, path_in_schema, encodings), read results with the intended table; handles are then "
-         "closed/freed/aborted (abort and close alternate).  Distinct = distinct (scenario, codec, mode, level, k).",
+         "closed/freed/aborted (abort and close alternate).  (3) second wave of scenarios, same enumeration: a file assembled "
+         "by the harness with the library's own serialisers (dictionary pages found through dictionary_page_offset and at "
+         "data_page_offset, fixed width and BYTE_ARRAY, RLE_DICTIONARY / PLAIN_DICTIONARY, 2-3 data pages per chunk, a nested "
+         "OPTIONAL group with max_def 2, page CRCs, snappy, and the footer fields carquet never writes: column key/value "
+         "metadata, encoding_stats, file_path, chunk statistics) read by column (dict), with carquet_column_skip interleaved "
+         "across pages (dskip), by the batch reader (dbatch) and through column_statistics / row_group_matches / "
+         "filter_row_groups (dstats), in fread, mmap and buffer mode; Bloom filter create/insert/check/write/read/merge "
+         "(bloom); statistics builder incl. build into a nearly full arena (statsb); column and offset index builders "
+         "with > 32 pages and serialisation (pgidx); schema builder with groups (schemag); write of a table with a "
+         "REPEATED column and a group in the schema, judged by byte equality with the fault-free file (wrep).  (4) request-"
+         "count tie: every alloc_scn line carries per API call its status, the number of allocation requests it made and "
+         "(reads / skips) the count it returned; for schema, schemag, bloom, statsb, pgidx, write/wrep (short names, small "
+         "pages, no zstd), read, batch, dict, dskip, dbatch the driver runs the Impl model call by call under the same "
+         "oracle and all three lists must be equal (lvl=0).  alloc_arena lines are additionally checked for n-ary "
+         "pairwise disjointness of the pointers handed out.  Distinct = distinct (scenario, codec, mode, level, k).",
     assumptions=[
       "level claim: the *propagation algebra* of the modelled components is proved (a refused request surfaces as an "
       "error; success implies the fault-free result; no modelled NULL dereference).  Crash-, leak- and use-after-free "
@@ -52,7 +85,10 @@ PART = {
       "sizes below 2^63 (no size_t wrap-around in capacity / offset arithmetic); malloc returns 16-byte aligned blocks",
       "the scenario tables avoid the writer/reader defects unrelated to allocation (strictly alternating null pattern, "
       "one write_batch per column per row group, whole-chunk reads)",
-      "the models mirror /repo with fixes/F20a..F20g applied; on a tree without them the F20 sites show up as violations",
+      "the models mirror /repo with fixes/F20a..F20j applied; on a tree without them the F20 sites show up as violations "
+      "(F20h, F20i, F20j: fixes/F20h-*.patch, F20i-*.patch, F20j-*.patch, found by the second wave of scenarios)",
+      "request-count tie: page headers of the modelled files are shorter than the 256-byte header window; arena requests of "
+      "open / close fit the first block unless the scenario is excluded from the tie (long column names)",
     ],
     trusted_base=["harness/alloc_wrap.c (link-time interposition of malloc/calloc/realloc/strdup and of the carquet_arena_* "
                   "entry points; frame-pointer stack capture of the failing request)",
@@ -63,6 +99,6 @@ PART = {
 
 # what the check delivers, in the component builder's words
 PART['C19'].update(
-    text='partial: for the allocation-bearing components (growable buffer, arena, schema builder, Thrift encoder latch, page builder, column/row-group/file writer status flow, open/parse, page load, batch reader set-up) Lean theorems over executable models with an explicit allocator oracle show that a refused request surfaces as an error status and that a call reporting success has the fault-free effect; the buffer, arena, schema, latch and page-builder models are tied to the C code by differential execution under the same fail pattern.  That no single failed request makes the real API crash, leak, or silently change its result is explored on every run by enumerating every k of every scenario (write per codec, column and batch reads in each I/O mode, schema build, footer parse under arena pressure) under ASan/LeakSanitizer — observed, not proved',
+    text='partial: for the allocation-bearing components (growable buffer, arena incl. n-ary disjointness of whole allocation sequences, schema builder, Thrift encoder latch, page builder, column/row-group/file writer status flow, open/parse, page-by-page column reader with dictionary pages / partial progress / skip, batch reader, Bloom filter, statistics builder, page index builders with live/dangling pointer bookkeeping) Lean theorems over executable models with an explicit allocator oracle show that a refused request surfaces as an error status, that a call reporting success has the fault-free effect, that read/skip counts are true and short only under a refusal, and that the index builders never touch a freed block nor leak; the models are tied to the C code by differential execution under the same fail pattern, the upper write/read flows call by call by exact request counts.  That no single failed request makes the real API crash, leak, or silently change its result is explored on every run by enumerating every k of every scenario (write per codec, column and batch reads in each I/O mode, schema build, footer parse under arena pressure) under ASan/LeakSanitizer — observed, not proved',
     level_note='Lean kernel for the propagation algebra; the whole-API claim rests on fault enumeration (sampled scenarios, single failures) with sanitizers',
     technique='Lean 4 proof over oracle-threaded models + link-time allocation fault injection with per-case leak checks')
